@@ -68,6 +68,7 @@ int main(int argc, char** argv) {
   int spare = atoi(argv[2]);
   vh_parse(argv[3]);
   if (vh_script.nthreads - 1 > np) { fprintf(stderr, "mpscr: more producer threads than producer numbers\n"); return 2; }
+  vh_dirty_heap();
   fifo = mpscr_fifo_create((size_t)np);
   if (!fifo) return 2;
   vr_reg(&fifo->counter, 8, "counter");
